@@ -262,7 +262,8 @@ func c04SrcBlock(src int, sh *c04Shape) []config.Node {
 	}
 	var out []config.Node
 	if sh.rwScope == 2 || sh.rwScope == 4 {
-		out = append(out, c04Modify("replace_rcpt", "tblRW"))
+		// the source scope rewrites through its own table (other replacements than the global one)
+		out = append(out, c04Modify("replace_rcpt", "tblRW2"))
 	}
 	return append(out,
 		config.Node{Name: "destination_in", Args: []string{"&tblD"}, Children: leaf(0)},
@@ -328,6 +329,7 @@ func harness_C04_routing() {
 		"tblS":   {name: "tblS"},
 		"tblD":   {name: "tblD"},
 		"tblRW":  {name: "tblRW", replace: []string{"u@example.net", "v@example.org"}[:rwN]},
+		"tblRW2": {name: "tblRW2", replace: []string{"u@example.org", "é@example.net"}[:rwN]},
 		"tblRWS": {name: "tblRWS", replace: []string{"v@example.org"}},
 	}
 	c04Targets = map[string]*c04Target{}
@@ -338,6 +340,7 @@ func harness_C04_routing() {
 		c04Tables["tblD"].member[c] = nondetBool(fmt.Sprintf("tblD.%d", c))
 		if sh.rwScope != 0 {
 			c04Tables["tblRW"].member[c] = nondetBool(fmt.Sprintf("tblRW.%d", c))
+			c04Tables["tblRW2"].member[c] = nondetBool(fmt.Sprintf("tblRW2.%d", c))
 		}
 		if senderRW {
 			c04Tables["tblRWS"].member[c] = nondetBool(fmt.Sprintf("tblRWS.%d", c))
@@ -348,6 +351,10 @@ func harness_C04_routing() {
 	k2 := nondetChoiceStr("k2", all...)
 	sh.k3 = nondetChoiceStr("k3", all...)
 	sh.k4 = nondetChoiceStr("k4", all...)
+	if verifParam("fixkeys", 0) == 1 {
+		// reduced shape for the rewrite-heavy quick job: concrete rule keys
+		k1, k2, sh.k3, sh.k4 = "U@EXAMPLE.ORG", "example.net", "u@example.net", "EXAMPLE.org"
+	}
 	if sh.reroute {
 		sh.k5 = nondetChoiceStr("k5", all...)
 	}
@@ -439,7 +446,7 @@ func harness_C04_routing() {
 		addrs = c04Rewrite(c04Tables["tblRW"], addrs)
 	}
 	if sh.rwScope == 2 || sh.rwScope == 4 {
-		addrs = c04Rewrite(c04Tables["tblRW"], addrs)
+		addrs = c04Rewrite(c04Tables["tblRW2"], addrs)
 	}
 	var expect []c04Expect
 	var rejectAt []bool // per routed address: does its block reject
